@@ -67,12 +67,23 @@ impl VStack {
     fn get_top(&mut self) -> &mut VRegister {
         self.0.last_mut().unwrap()
     }
-    fn find_upvalue(&self, v: &Arc<mir::Value>) -> Option<Reg> {
-        self.0
-            .iter()
-            .rev()
-            .skip(1)
-            .find_map(|vreg| vreg.find_keep(v))
+    /// Position of an upvalue in the frame of the function that owns it.
+    ///
+    /// The registers of MIR function `i` are `self.0[i]` (one entry is pushed per function, in
+    /// order). The enclosing function is asked first: `Argument(n)` is the same key in every
+    /// function, so searching all functions compiled so far could answer with the position of the
+    /// n-th parameter of a sibling lambda instead of the parent's.
+    fn find_upvalue(&self, upperfn_i: Option<usize>, v: &Arc<mir::Value>) -> Option<Reg> {
+        upperfn_i
+            .and_then(|i| self.0.get(i))
+            .and_then(|vreg| vreg.find_keep(v))
+            .or_else(|| {
+                self.0
+                    .iter()
+                    .rev()
+                    .skip(1)
+                    .find_map(|vreg| vreg.find_keep(v))
+            })
     }
     pub fn push_stack(&mut self, v: &Arc<mir::Value>, size: u64) -> Reg {
         self.get_top().push_stack(v, size)
@@ -234,9 +245,9 @@ impl ByteCodeGenerator {
             .or_else(|| self.globals.get(v).map(|&v| v as Reg))
             .expect(format!("value {v} not found").as_str())
     }
-    fn find_upvalue(&self, upval: &Arc<mir::Value>) -> Reg {
+    fn find_upvalue(&self, upperfn_i: Option<usize>, upval: &Arc<mir::Value>) -> Reg {
         self.vregister
-            .find_upvalue(upval)
+            .find_upvalue(upperfn_i, upval)
             .expect("failed to find upvalue")
     }
     fn prepare_function(
@@ -677,7 +688,7 @@ impl ByteCodeGenerator {
             }
             mir::Instruction::GetUpValue(i, ty) => {
                 let upval = &mirfunc.upindexes[i as usize];
-                let v = self.find_upvalue(upval);
+                let v = self.find_upvalue(mirfunc.upperfn_i, upval);
                 let size: TypeSize = Self::word_size_for_type(ty);
                 let ouv = mir::OpenUpValue {
                     pos: v as usize,
@@ -698,7 +709,7 @@ impl ByteCodeGenerator {
             }
             mir::Instruction::SetUpValue(dst, src, ty) => {
                 let upval = &mirfunc.upindexes[dst as usize];
-                let v = self.find_upvalue(upval);
+                let v = self.find_upvalue(mirfunc.upperfn_i, upval);
                 let size: TypeSize = Self::word_size_for_type(ty);
                 let ouv = mir::OpenUpValue {
                     pos: v as usize,
